@@ -113,11 +113,16 @@ class PcWorld:
         return "ok"
 
 
+def host_path(spec, hostname):
+    """some generators write a path that carries the device's name"""
+    return "%s.d/%s.conf" % (spec["path"], hostname) if spec.get("per_host") else spec["path"]
+
+
 def make_entire(spec, world):
     from annet.generators import Entire
 
     def path(self, device):
-        return spec["path"]
+        return host_path(spec, device.hostname)
 
     def run(self, device):
         if spec.get("declines"):
@@ -281,6 +286,8 @@ class Engine:
                 violation = self._history(ch, world, steps_log, report)
             except AnnetCrashed as e:
                 violation = V("annet-raised", "%s:%s" % (type(e.exc).__name__, e.where), exception=repr(e.exc)[:400])
+            if violation is None and ch.draw(3, "shared-generators") == 0:
+                violation = self._shared_generators(ch, world)
         finally:
             F.WORLD = None
         if violation is None and deferred:
@@ -292,6 +299,48 @@ class Engine:
                 "sig": int.from_bytes(h.digest()[:8], "big"), "sim_s": simloop._installed.clock.now, "steps": len(world.events),
                 "faults": world.faults, "probes": world.probes, "strategy": world.soft.split()[0], "scenario": scenario,
                 "trace": world.events}
+
+    def _shared_generators(self, ch, world):
+        """the same generator objects serve several devices of one platform, one after the other (as within one annet
+        process); some generators write to a path that carries the device's name"""
+        from .cli import V
+        from annet.annlib.netdev.views.hardware import HardwareView
+        from annet.generators import run_file_generators
+        devs = []
+        for k in range(2 + ch.draw(2, "sg-ndev")):
+            d = F.InvDevice(310 + k, "PC")
+            d.hw = HardwareView("PC", world.soft)
+            devs.append(d)
+        specs = [dict(s, per_host=ch.draw(2, "sg-per-host") == 1) for s in world.specs]
+        gens = [make_entire(specs[i], world) for i in world.order]
+        visits = [devs[ch.draw(len(devs), "sg-visit")] for _ in range(len(devs) + ch.draw(3, "sg-extra"))]
+        world.probe("generator_objects_shared_by_devices")
+        for d in visits:
+            try:
+                got = run_file_generators(gens, d).new_files()
+            except HarnessError:
+                raise
+            except Exception as e:  # pylint: disable=broad-except
+                return V("annet-raised", "%s:shared-generators" % type(e).__name__, exception=repr(e)[:300])
+            winners = {}
+            for s in specs:
+                if s.get("declines"):
+                    continue
+                prio, p = 100 if s["prio"] is None else s["prio"], host_path(s, d.hostname)
+                if p not in winners or prio > winners[p][0]:
+                    winners[p] = (prio, s)
+            want = {}
+            for p, (_prio, s) in winners.items():
+                r = s["reload"] or ""
+                if world.soft.startswith(("Cumulus", "SwitchDev", "SONiC")):
+                    r = "\n".join(([r] if r else []) + ["/usr/bin/etckeeper commitreload %s" % p])
+                want[p] = (PcWorld.content(s["parts"]), r)
+            if got != want:
+                paths = sorted(set(got) ^ set(want))
+                return V("planned-files-differ", "paths-of-another-device" if paths else "shared-generators", device=d.hostname,
+                         visits=[x.hostname for x in visits], want=sorted(want), got=sorted(got),
+                         differing=[p for p in want if p in got and got[p] != want[p]][:3])
+        return None
 
     def _history(self, ch, world, steps_log, report):
         from .cli import V
@@ -308,7 +357,7 @@ class Engine:
             all_new = self._reference(world, False)[0]
             for p in sorted(new):
                 rel = ch.weighted([(3, "keep"), (2, "equal"), (2, "different"), (1, "absent"), (1, "newline-only"), (1, "empty"),
-                                   (2, "reordered")], "file-relation")
+                                   (2, "reordered"), (1, "trailing-blanks")], "file-relation")
                 if step > 0 and rel == "keep":
                     continue
                 if rel in ("keep", "equal"):
@@ -320,6 +369,12 @@ class Engine:
                     lines = new[p].split("\n")
                     perm = lines[1:] + lines[:1] if len(set(lines)) > 1 else lines + ["edited by hand"]
                     world.files[p] = "\n".join(perm)        # same lines, another order
+                    world.fire("oob_edit")
+                elif rel == "trailing-blanks":
+                    lines = new[p].split("\n")
+                    k = ch.draw(len(lines), "blank-line")
+                    lines[k] = lines[k] + ch.pick([" ", "  ", "\t"], "blank-kind")   # differs only in blanks at a line end
+                    world.files[p] = "\n".join(lines)
                     world.fire("oob_edit")
                 elif rel == "absent":
                     world.files.pop(p, None)
